@@ -481,6 +481,10 @@ func cropStsc(b *mp4.StscBox, lastSampleNr uint32) error {
 	nrLeft := samplesLeft - nrChunksInLast*lastEntry.SamplesPerChunk
 	if nrLeft > 0 {
 		sdid := b.GetSampleDescriptionID(int(lastEntry.FirstChunk))
+		if nrChunksInLast == 0 {
+			// The cut is inside the first chunk of the last entry, so that entry is replaced
+			b.Entries = b.Entries[:entryIdx]
+		}
 		err := b.AddEntry(lastEntry.FirstChunk+nrChunksInLast, nrLeft, sdid)
 		if err != nil {
 			return fmt.Errorf("stsc AddEntry: %w", err)
